@@ -7,6 +7,7 @@ def timerHandle (w : TW) (args : List String) : TW × String :=
   let show' (w : TW) : String := s!"shared={w.shared} parent={w.parent}"
   match args with
   | ["new"] => ({}, "ok")
+  | ["new", "tiny"] => ({}, "ok")   -- another bucket layout of the real histogram; the contribution count does not depend on it
   | ["start", k] =>
     let w' := w.step (.start (if k == "local" then .local else .shared))
     (w', s!"ok t={w'.timers.length - 1}")
